@@ -45,7 +45,8 @@ static FILE* vf_fopen(const char* name, const char* mode)
   return (FILE*)(void*)v;
 }
 
-static int vf_fclose(FILE* f) { VF(f)->was_closed++; return 0; }
+#define VF_STD(f) ((f) == stdout || (f) == stderr)
+static int vf_fclose(FILE* f) { if (VF_STD(f)) return 0; VF(f)->was_closed++; return 0; }
 static int vf_fflush(FILE* f) { (void)f; return 0; }
 static long vf_ftell(FILE* f) { return VF(f)->pos; }
 static int vf_feof(FILE* f) { return VF(f)->eof; }
@@ -66,6 +67,7 @@ static size_t vf_fwrite(const void* ptr, size_t sz, size_t n, FILE* f)
   VFILE* v = VF(f);
   size_t total = sz * n, i;
   const unsigned char* p = (const unsigned char*)ptr;
+  if (VF_STD(f)) return n;
   v->nwrite_calls++; v->nbytes_written += total;
   if (total == 0) return n;
   switch (v->kind)
